@@ -55,6 +55,13 @@ def _decide(call: ast.Call, init: ast.FunctionDef):
     for i, arg in enumerate(call.args):
         if isinstance(arg, ast.Starred):
             splat = True
+            # a list splatted into two or more OPTIONAL parameters binds by position whatever the list holds: when an earlier optional value is absent the later ones
+            # slide into its slot (`cls(id_, shape, categories, *optionals)` with optionals = [mu] puts mu into `invariant`)
+            remaining = params[i:]
+            optional_remaining = [p_ for p_ in remaining if p_ not in required]
+            if a.vararg is None and len(optional_remaining) >= 2 and len(optional_remaining) == len(remaining):
+                problems.append(('splat-into-optionals', f"`{ast.unparse(arg)}` is unpacked into the optional parameters {optional_remaining}: which parameter a value reaches depends on "
+                                                         f"how many values the list holds, so an absent earlier option shifts the later ones into its slot"))
             break
         if i >= len(params):
             if a.vararg is None:
